@@ -177,7 +177,9 @@ func natholeCmd(args []string) int {
 				if early {
 					ctl.HandleReport(&msg.NatHoleReport{Sid: sid, Success: true})
 					ctl.HandleReport(&msg.NatHoleReport{Sid: sid, Success: false})
+					emitMu.Lock()
 					stats["early_report"]++
+					emitMu.Unlock()
 				}
 				cm := &msg.NatHoleClient{TransactionID: ctid, ProxyName: "xp", Sid: sid,
 					MappedAddrs: append([]string{}, ca.mapped...), AssistedAddrs: append([]string{}, ca.assisted...)}
@@ -206,7 +208,9 @@ func natholeCmd(args []string) int {
 				// ... and for a session whose analysis failed (error answers): never a crash, never a score
 				if vr != nil && vr.Error != "" && vr.Sid != "" {
 					ctl.HandleReport(&msg.NatHoleReport{Sid: vr.Sid, Success: true})
+					emitMu.Lock()
 					stats["report_after_error"]++
+					emitMu.Unlock()
 				}
 				if (vr == nil || vr.Error != "") && sid != "" {
 					ctl.HandleReport(&msg.NatHoleReport{Sid: sid, Success: true})
